@@ -786,6 +786,56 @@ def compile_fn(entry, trees, known):
     return "(* %s *)\nDefinition %s %s : %s :=\n  %s.\n" % (src, coqname, sig, ret, body)
 
 
+def compile_raise_points(entry, trees, known):
+    """wave 8 (exception safety): the two documented refusals of count_splits_on_tree - the namespace assert and
+    tree.calc_node_ages() raising UltrametricityError under `if not self.ignore_node_ages` - are located in the
+    statement list, and the statements that PRECEDE each of them are compiled (same compiler) into the state of
+    `self` with which the refusal is reached; gen_.._exc puts the three outcomes together.  Which tallies are
+    made before the raising call is thereby read off the AST (Props/C05Gen.v gen_count_refused_*)."""
+    path, cls, pyname, coqname, kind, params, rty, local_types, extra = entry
+    fn = find(trees[path], cls, pyname)
+    if any(isinstance(n, (ast.Raise, ast.Try)) for n in ast.walk(fn)):
+        raise Unsupported("%s: raise / try statement (refusal points are located structurally)" % pyname)
+    probe = FnT(fn, kind, params, known, {})
+    asserts = [k for k, s in enumerate(fn.body) if isinstance(s, ast.Assert)]
+    effects = [k for k, s in enumerate(fn.body)
+               if isinstance(s, ast.If) and s.body and not s.orelse and all(probe.is_tree_effect(x) for x in s.body)
+               and any(isinstance(x, ast.Expr) for x in s.body)]
+    others = [n for n in ast.walk(fn) if isinstance(n, ast.Call) and isinstance(n.func, ast.Attribute)
+              and n.func.attr == "calc_node_ages"]
+    if len(asserts) != 1 or len(effects) != 1 or len(others) != 1 or asserts[0] > effects[0]:
+        raise Unsupported("%s: expected one namespace assert followed by one guarded calc_node_ages call" % pyname)
+    sig = "(cfg : config) (self : sdx) " + extra + " ".join("(%s : %s)" % (cname(p), coq_ty(t)) for p, t in params)
+    args = "cfg self " + " ".join(cname(p) for p, _t in params)
+    out = []
+    for tag, k in (("at_assert", asserts[0]), ("at_calc_node_ages", effects[0])):
+        c = FnT(fn, kind, params, known, {})
+        c.rty = rty
+        c.local_types = local_types
+        c.summary_mode = False
+        c.escape_default = "None"
+        env = {p: t for p, t in params}
+        if tag == "at_assert":
+            c.assert_(fn.body[k], env, lambda e2: "")          # shape check of the assert (fail closed)
+        body = c.block(fn.body[:k], env, lambda e2: "self")
+        out.append("(* %s.%s, line %d: `self` on reaching statement %d, `%s` *)\nDefinition %s_%s %s : sdx :=\n  %s.\n"
+                   % (cls, pyname, fn.body[k].lineno, k, ast.unparse(fn.body[k]).split("\n")[0][:70].replace("*)", "* )"),
+                      coqname, tag, sig, body))
+    c = FnT(fn, kind, params, known, {})
+    g, gty = c.ex(fn.body[effects[0]].test, {p: t for p, t in params})
+    if c.pre:
+        raise Unsupported("%s: guard of calc_node_ages needs bindings" % pyname)
+    out.append("Definition %s_ages_guard %s : bool :=\n  %s.\n" % (coqname, sig, c.truth(g, gty, fn.body[effects[0]])))
+    out.append("(* the three outcomes: AssertionError of the namespace assert (ns_ok = false), UltrametricityError (a ValueError)\n"
+               "   of calc_node_ages (guard and ages_ok = false), normal return *)\n"
+               "Definition %s_exc %s (ns_ok ages_ok : bool) : sdx * res %s :=\n"
+               "  if negb ns_ok then (%s_at_assert %s, Err AssertErr)\n"
+               "  else if andb (%s_ages_guard %s) (negb ages_ok) then (%s_at_calc_node_ages %s, Err ValueErr)\n"
+               "  else let '(s, r) := %s %s in (s, Ok r).\n"
+               % (coqname, sig, coq_ty(rty), coqname, args, coqname, args, coqname, args, coqname, args))
+    return "\n".join(out)
+
+
 def generate(repo):
     src = os.path.join(repo, "src", "dendropy")
     trees = {}
@@ -804,6 +854,8 @@ def generate(repo):
         out.append(compile_fn(entry, trees, known))
         path, cls, pyname, coqname, kind, params, rty, _lt, _x = entry
         known[pyname] = (coqname, kind, [t for _p, t in params], rty)
+        if pyname == "count_splits_on_tree":
+            out.append(compile_raise_points(entry, trees, known))
     from dv import c05_gen_impl2
     out.append(c05_gen_impl2.extra(trees, known))
     return "\n".join(out)
